@@ -317,12 +317,12 @@ def load(
     if dataset is not None:
         phonon.dataset = dataset
 
-    if (
-        _fc is None
-        and force_constants_filename is None
-        and (forces_in_dataset(_dataset) or force_sets_filename is not None)
+    if force_constants_filename is None and (
+        force_sets_filename is not None
+        or (_fc is None and forces_in_dataset(_dataset))
     ):
-        # Forces given by force_sets_filename or in phonopy_yaml precede
+        # Forces given by force_sets_filename precede force constants in
+        # phonopy_yaml, and forces given by either of them precede
         # 'FORCE_CONSTANTS' and 'force_constants.hdf5' searched in current
         # directory (see priority in docstring).
         fc = None
